@@ -232,6 +232,26 @@ func (r *Run) doValueOp(sc *plan.Script, op *plan.Op, rec *plan.Rec) {
 			r.keptStr = append(r.keptStr, [2]string{s, strings.Clone(s)})
 		}
 		r.mu.Unlock()
+	case "snap.scan":
+		// keep the very key strings an iterator hands out, plus private copies
+		it, err := dm.Scan(ctx)
+		rec.Err = Classify(err)
+		if err != nil {
+			return
+		}
+		var ks []string
+		for it.Next() {
+			if k := it.Key(); len(k) > 0 {
+				ks = append(ks, k)
+			}
+		}
+		r.mu.Lock()
+		for _, k := range ks {
+			r.keptStr = append(r.keptStr, [2]string{k, strings.Clone(k)})
+		}
+		r.mu.Unlock()
+		rec.N = len(ks)
+		it.Close()
 	case "snap.mutate":
 		// scribble over everything that was handed out so far
 		r.mu.Lock()
@@ -266,7 +286,7 @@ func (r *Run) doValueOp(sc *plan.Script, op *plan.Op, rec *plan.Rec) {
 		}
 		for _, ks := range r.keptStr {
 			if ks[0] != ks[1] {
-				rec.Keys = append(rec.Keys, fmt.Sprintf("string value: handed out %q, now reads %q", ks[1], ks[0]))
+				rec.Keys = append(rec.Keys, fmt.Sprintf("string (value or iterator key): handed out %q, now reads %q", ks[1], ks[0]))
 			}
 		}
 		rec.N = len(r.kept)
